@@ -275,12 +275,20 @@ fn c14_twin_must_fail() {
 }
 
 // =====================================================================================
-// C06.S2-S4: value chains — write -> read exactness, overwrite, remove (shrunk entry sizes; the code is generic in entry_size)
+// C06.S2-S4: value layout — write and read are each checked against the on-disk format specification
+// (table.rs header comment), per value length. Shrunk entry size 32: the code is generic in entry_size.
+//
+// Why through a specification and not write-then-read: the write path copies every entry with memcpy
+// (`buf[..n].to_vec()`); CBMC models memcpy with opaque array primitives, so constants (markers, next pointers)
+// do not survive it in symbolic execution and a read-back in the same harness unwinds every chain-walk loop to
+// the bound (probed: > 25 min per length). Checking "write produces exactly the specified bytes" (W) and
+// "the specified bytes read back as the value / are released" (R) separately keeps all control flow concrete.
 // =====================================================================================
-const CE: usize = 32; // part size of the chain harness tables (NoHash keys: btree / multitree style entries)
+const CE: usize = 32; // part size (NoHash keys: btree / multitree style entries)
 const CMAX: usize = 100; // longest value
+const CP: usize = 4; // most parts
 
-/// Number of parts `overwrite_chain` needs for `total` = value + rc + key bytes with entry size `e`.
+/// Number of parts `total` = value + rc bytes needs with entry size `e`.
 fn parts_needed(total: usize, e: usize) -> usize {
 	let free = e - 2;
 	let mut rem = total;
@@ -289,149 +297,444 @@ fn parts_needed(total: usize, e: usize) -> usize {
 	n
 }
 
-fn chain_table(rc: bool, filled: u64) -> ValueTable {
-	let t = mk(TableId::new(0, 0), CE as u16, true, rc, 16);
-	t.filled.store(filled, Ordering::Relaxed);
-	t
+/// The format specification: bytes of each part of a value of `len` bytes stored at `slots` (chain order).
+/// rc = Some(counter) for ref-counted tables. Returns (entries, entry lengths, number of parts).
+fn spec_layout(value: &[u8; CMAX], len: usize, rc: Option<u32>, compressed: bool, slots: &[u64; CP]) -> ([[u8; CE]; CP], [usize; CP], usize) {
+	let mut out = [[0u8; CE]; CP];
+	let mut lens = [0usize; CP];
+	let rcs = if rc.is_some() { 4 } else { 0 };
+	let total = len + rcs;
+	let n = parts_needed(total, CE);
+	let mut rem = total; // bytes (rc + value) still to place
+	let mut voff = 0; // value bytes placed
+	let mut p = 0;
+	while p < CP {
+		if p < n {
+			let mut o;
+			let cap;
+			if rem > CE - 2 {
+				// head or continuation: [marker 2][next 8][..22]
+				if p == 0 { out[p][0] = 0xfd; out[p][1] = if compressed { 0x7f } else { 0xff }; } else { out[p][0] = 0xfe; out[p][1] = 0xff; }
+				let nx = slots[p + 1].to_le_bytes();
+				let mut k = 0; while k < 8 { out[p][2 + k] = nx[k]; k += 1; }
+				o = 10;
+				cap = CE - 10;
+				lens[p] = CE;
+			} else {
+				let sz = (rem as u16) | if compressed { 0x8000 } else { 0 };
+				out[p][0] = sz.to_le_bytes()[0]; out[p][1] = sz.to_le_bytes()[1];
+				o = 2;
+				cap = rem;
+				lens[p] = 2 + rem;
+			}
+			let mut used = 0;
+			if p == 0 {
+				if let Some(c) = rc { let b = c.to_le_bytes(); let mut k = 0; while k < 4 { out[p][o + k] = b[k]; k += 1; } o += 4; used = 4; }
+			}
+			let mut k = 0;
+			while k < CE { if used + k < cap { out[p][o + k] = value[voff + k]; } k += 1; }
+			voff += cap - used;
+			rem -= cap;
+		}
+		p += 1;
+	}
+	(out, lens, n)
 }
 
-fn check_read_back(t: &ValueTable, w: &crate::log::LogWriter, at: u64, buf: &[u8; CMAX], len: usize, compressed: bool, label_rc: u32) {
+fn layout_table(rc: bool, multipart: bool) -> ValueTable { mk(TableId::new(0, 0), CE as u16, multipart, rc, 16) }
+
+/// Put the specified entries into the record overlay / on disk (element-wise, headers concrete).
+fn preload_layout(t: &ValueTable, w: &mut crate::log::LogWriter, on_disk: bool, ents: &[[u8; CE]; CP], lens: &[usize; CP], n: usize, slots: &[u64; CP]) {
+	let mut p = 0;
+	while p < CP {
+		if p < n {
+			if on_disk {
+				vf::disk_put(&t.file, slots[p] as usize * CE, &ents[p][..lens[p]]);
+			} else {
+				let mut v = Vec::with_capacity(lens[p]);
+				let mut k = 0; while k < CE { if k < lens[p] { v.push(ents[p][k]); } k += 1; }
+				w.insert_value(t.id, slots[p], v);
+			}
+		}
+		p += 1;
+	}
+}
+
+/// W: write_insert_plan produces exactly the specified entries at consecutive fresh slots.
+fn write_case(len: usize, rc: bool, compressed: bool) {
+	let value: [u8; CMAX] = kani::any();
+	let n = parts_needed(len + if rc { 4 } else { 0 }, CE);
+	let t = layout_table(rc, n > 1);
+	let overlays = vl::new_overlays();
+	let mut w = crate::log::LogWriter::new(&overlays, 1);
+	let at = t.write_insert_plan(&TableKey::NoHash, &value[..len], &mut w, compressed).unwrap();
+	assert!(at == 1, "C06.S2 first free slot used");
+	assert!(t.filled.load(Ordering::Relaxed) == 1 + n as u64, "C06.S2 exactly the needed number of parts allocated");
+	assert!(unsafe { vl::OV_WRITES } == n, "C06.S2 one write per part");
+	let slots = [1u64, 2, 3, 4];
+	let (ents, lens, n2) = spec_layout(&value, len, if rc { Some(1) } else { None }, compressed, &[1, 2, 3, 4]);
+	assert!(n2 == n, "spec self-check");
+	let mut p = 0;
+	while p < CP {
+		if p < n {
+			let mut out = [0u8; CE];
+			assert!(vl::rec_get(&w, t.id, slots[p], &mut out), "C06.S2 every part is in the record");
+			assert!(unsafe { vl::OV_LEN[0][slots[p] as usize] } == lens[p], "C06.S2 part length as specified");
+			let k: usize = kani::any();
+			kani::assume(k < lens[p]);
+			assert!(out[k] == ents[p][k], "C06.S2 written part equals the format specification (marker, next pointer, counter, size, payload)");
+		}
+		p += 1;
+	}
+	kani::cover!(true);
+	std::mem::forget(w); std::mem::forget(t); std::mem::forget(overlays);
+}
+
+/// R: the specified entries (at arbitrary distinct slots, in the overlay or on disk) read back as the value, with the
+/// right size / flag / counter; removing them puts every part on the free list exactly once.
+fn read_case(len: usize, rc: bool, compressed: bool) {
+	let on_disk = false; // reads from the file go through a guard struct (same constant-propagation trap as LogWriterValueGuard)
+	let value: [u8; CMAX] = kani::any();
+	let counter: u32 = kani::any();
+	kani::assume(counter >= 1);
+	let n = parts_needed(len + if rc { 4 } else { 0 }, CE);
+	let t = layout_table(rc, n > 1);
+	t.filled.store(6, Ordering::Relaxed);
+	let overlays = vl::new_overlays();
+	let mut w = crate::log::LogWriter::new(&overlays, 1);
+	// a scattered chain: 4 -> 2 -> 5 -> 3
+	let slots = [4u64, 2, 5, 3];
+	let (ents, lens, _) = spec_layout(&value, len, if rc { Some(counter) } else { None }, compressed, &slots);
+	preload_layout(&t, &mut w, on_disk, &ents, &lens, n, &slots);
 	let key = TableKey::NoHash;
-	let got = t.query(&mut TableKeyQuery::Check(&key), at, w).unwrap();
+	let view = vl::OvView;
+	let got = t.query(&mut TableKeyQuery::Check(&key), 4, &view).unwrap();
 	match got {
-		Some((v, c, rc)) => {
+		Some((v, c, r)) => {
 			assert!(v.len() == len, "C06.S2 length read back");
 			assert!(c == compressed, "C06.S2 compressed flag read back");
-			assert!(rc == label_rc, "C06.S2 reference count of a fresh value is 1");
+			assert!(r == if rc { counter } else { 1 }, "C06.S2 reference count read back");
 			let i: usize = kani::any();
 			kani::assume(i < len);
-			assert!(v[i] == buf[i], "C06.S2 value bytes read back bit-exact");
+			assert!(v[i] == value[i], "C06.S2 value bytes read back bit-exact");
 			std::mem::forget(v);
 		},
-		None => assert!(false, "C06.S2 written value is found"),
+		None => assert!(false, "C06.S2 stored value is found"),
 	}
-	let sz = t.size(&key, at, w).unwrap();
-	assert!(sz == Some((len as u32, compressed)), "C06.S2 reported size equals the length");
-}
-
-/// Walk the free list through the record view; returns how many slots it holds and checks each is a tombstone in range.
-fn free_list_len(t: &ValueTable, w: &crate::log::LogWriter, max: usize) -> usize {
-	let filled = t.filled.load(Ordering::Relaxed);
+	assert!(t.size(&key, 4, &view).unwrap() == Some((len as u32, compressed)), "C06.S2 reported size equals the length");
+	// S4: removal releases every part exactly once
+	let writes0 = unsafe { vl::OV_WRITES };
+	t.write_remove_plan(4, &mut w).unwrap();
+	assert!(unsafe { vl::OV_WRITES } == writes0 + n, "C06.S4 exactly the parts of the value are rewritten");
+	let gone = t.query(&mut TableKeyQuery::Check(&key), 4, &view).unwrap();
+	assert!(gone.is_none(), "C06.S4 removed value is not readable");
+	// free list: last freed first; walk it
 	let mut cur = t.last_removed.load(Ordering::Relaxed);
-	let mut n = 0;
+	let mut seen = [false; 8];
+	let mut cnt = 0;
 	let mut hops = 0;
-	while hops < max {
+	while hops < CP + 1 {
 		if cur != 0 {
-			assert!(cur < filled, "C06.S4 free list stays below the fill mark");
+			assert!(cur < 6 && !seen[cur as usize], "C06.S4 free list in range, no slot twice");
+			seen[cur as usize] = true;
 			let mut b = [0u8; 10];
-			assert!(vl::rec_get(w, t.id, cur, &mut b), "C06.S4 freed slot is in the record");
-			assert!(b[0] == 0xff && b[1] == 0xff, "C06.S4 freed slot is a tombstone");
+			assert!(vl::rec_get(&w, t.id, cur, &mut b) && b[0] == 0xff && b[1] == 0xff, "C06.S4 freed part is a tombstone");
 			cur = le64(&b, 2);
-			n += 1;
+			cnt += 1;
 		}
 		hops += 1;
 	}
-	assert!(cur == 0, "C06.S4 free list terminates");
-	n
-}
-
-fn insert_read_case(len: usize, rc: bool) {
-	let buf: [u8; CMAX] = kani::any();
-	let compressed: bool = kani::any();
-	let t = chain_table(rc, 1);
-	let overlays = vl::new_overlays();
-	let mut w = crate::log::LogWriter::new(&overlays, 1);
-	let key = TableKey::NoHash;
-	let at = t.write_insert_plan(&key, &buf[..len], &mut w, compressed).unwrap();
-	assert!(at == 1, "C06.S2 first free slot used");
-	let n = parts_needed(len + if rc { 4 } else { 0 }, CE);
-	assert!(t.filled.load(Ordering::Relaxed) == 1 + n as u64, "C06.S2 exactly the needed number of parts allocated");
-	assert!(unsafe { vl::OV_WRITES } == n, "C06.S2 one write per part");
-	check_read_back(&t, &w, at, &buf, len, compressed, 1);
-	// S4 remove: value gone, all parts on the free list, each once
-	t.write_remove_plan(at, &mut w).unwrap();
-	let gone = t.query(&mut TableKeyQuery::Check(&key), at, &w).unwrap();
-	assert!(gone.is_none(), "C06.S4 removed value is not readable");
-	assert!(free_list_len(&t, &w, 6) == n, "C06.S4 every part of the removed value is on the free list exactly once");
-	assert!(t.filled.load(Ordering::Relaxed) == 1 + n as u64, "C06.S4 fill mark unchanged by removal");
-	kani::cover!(n >= 2);
+	assert!(cur == 0 && cnt == n, "C06.S4 every part of the removed value is on the free list exactly once");
+	let mut p = 0;
+	while p < CP { if p < n { assert!(seen[slots[p] as usize], "C06.S4 each part was released"); } p += 1; }
+	assert!(t.dirty_header.load(Ordering::Relaxed), "C06.S4 header marked dirty");
+	kani::cover!(true);
 	std::mem::forget(gone);
 	std::mem::forget(w); std::mem::forget(t); std::mem::forget(overlays);
 }
 
-fn replace_case(old_len: usize, new_len: usize, rc: bool) {
-	let buf_old: [u8; CMAX] = kani::any();
-	let buf: [u8; CMAX] = kani::any();
-	let compressed: bool = kani::any();
-	let t = chain_table(rc, 1);
+/// S3: replacing a stored value (specified old layout at scattered slots) writes exactly the specified new layout:
+/// old parts are reused in chain order, missing parts come from the fill mark, surplus parts become tombstones.
+fn replace_case(old_len: usize, new_len: usize, rc: bool, compressed: bool) {
+	let old: [u8; CMAX] = kani::any();
+	let value: [u8; CMAX] = kani::any();
+	let rcs = if rc { 4 } else { 0 };
+	let n_old = parts_needed(old_len + rcs, CE);
+	let n_new = parts_needed(new_len + rcs, CE);
+	let t = layout_table(rc, n_old > 1);
+	t.filled.store(6, Ordering::Relaxed);
 	let overlays = vl::new_overlays();
 	let mut w = crate::log::LogWriter::new(&overlays, 1);
-	let key = TableKey::NoHash;
-	let at = t.write_insert_plan(&key, &buf_old[..old_len], &mut w, kani::any()).unwrap();
-	let extra = if rc { 4 } else { 0 };
-	let n_old = parts_needed(old_len + extra, CE);
-	let n_new = parts_needed(new_len + extra, CE);
-	t.write_replace_plan(at, &key, &buf[..new_len], &mut w, compressed).unwrap();
-	check_read_back(&t, &w, at, &buf, new_len, compressed, 1);
-	let freed = free_list_len(&t, &w, 6);
-	if n_new <= n_old {
-		assert!(freed == n_old - n_new, "C06.S3 shrinking releases exactly the dropped parts");
-		assert!(t.filled.load(Ordering::Relaxed) == 1 + n_old as u64, "C06.S3 no new slot when not growing");
-	} else {
-		assert!(freed == 0, "C06.S3 growing releases nothing");
-		assert!(t.filled.load(Ordering::Relaxed) == 1 + n_new as u64, "C06.S3 growing allocates exactly the missing parts");
+	let slots = [4u64, 2, 5, 3];
+	let (ents, lens, _) = spec_layout(&old, old_len, if rc { Some(1) } else { None }, !compressed, &slots);
+	preload_layout(&t, &mut w, true, &ents, &lens, n_old, &slots);
+	t.write_replace_plan(4, &TableKey::NoHash, &value[..new_len], &mut w, compressed).unwrap();
+	// expected slots of the new chain: reuse old ones in order, then fresh ones from the fill mark (6, 7, ...)
+	let mut nslots = [0u64; CP];
+	let mut fresh = 6u64;
+	let mut p = 0;
+	while p < CP { if p < n_new { if p < n_old { nslots[p] = slots[p]; } else { nslots[p] = fresh; fresh += 1; } } p += 1; }
+	let (nents, nlens, _) = spec_layout(&value, new_len, if rc { Some(1) } else { None }, compressed, &nslots);
+	let mut p = 0;
+	while p < CP {
+		if p < n_new {
+			let mut out = [0u8; CE];
+			assert!(vl::rec_get(&w, t.id, nslots[p], &mut out), "C06.S3 every new part is in the record");
+			let k: usize = kani::any();
+			kani::assume(k < nlens[p]);
+			assert!(out[k] == nents[p][k], "C06.S3 replaced value equals the format specification");
+		} else if p < n_old {
+			let mut out = [0u8; 10];
+			assert!(vl::rec_get(&w, t.id, slots[p], &mut out) && out[0] == 0xff && out[1] == 0xff, "C06.S3 surplus old part is released (tombstone)");
+		}
+		p += 1;
 	}
-	kani::cover!(n_new != n_old);
+	assert!(t.filled.load(Ordering::Relaxed) == fresh, "C06.S3 fill mark advances exactly by the missing parts");
+	if n_new < n_old { assert!(t.last_removed.load(Ordering::Relaxed) != 0, "C06.S3 released parts are on the free list"); }
+	else { assert!(t.last_removed.load(Ordering::Relaxed) == 0, "C06.S3 nothing released when not shrinking"); }
+	kani::cover!(true);
 	std::mem::forget(w); std::mem::forget(t); std::mem::forget(overlays);
 }
 
-/// Case split over a set of concrete lengths chosen by a symbolic selector (lengths feed loop bounds and slice sizes: DESIGN section 4).
-fn pick(lens: &[usize]) -> usize { let s: usize = kani::any(); kani::assume(s < lens.len()); s }
-
-macro_rules! c06_insert {
-	($name:ident, $rc:expr, [$($l:expr),*]) => {
+macro_rules! c06_case {
+	($name:ident, $body:expr) => {
 		crate::verif_tbl! {
 			#[kani::proof]
 			#[kani::unwind(102)]
-			fn $name() {
-				const L: &[usize] = &[$($l),*];
-				let s = pick(L);
-				let mut c = 0;
-				while c < L.len() { if c == s { insert_read_case(L[c], $rc); } c += 1; }
-			}
+			fn $name() { $body }
 		}
 	};
 }
-macro_rules! c06_replace {
-	($name:ident, $rc:expr, [$(($o:expr, $n:expr)),*]) => {
-		crate::verif_tbl! {
-			#[kani::proof]
-			#[kani::unwind(102)]
-			fn $name() {
-				const L: &[(usize, usize)] = &[$(($o, $n)),*];
-				let s: usize = kani::any();
-				kani::assume(s < L.len());
-				let mut c = 0;
-				while c < L.len() { if c == s { replace_case(L[c].0, L[c].1, $rc); } c += 1; }
-			}
-		}
-	};
-}
-
-// part boundaries for entry 32 / NoHash / no rc: single <= 30; 2 parts <= 22+30 = 52; 3 parts <= 74; 4 parts <= 96
-c06_insert!(c06_s2_insert_read_boundaries, false, [0, 1, 30, 31, 52, 53, 74, 75, 96]);
-c06_insert!(c06_s2_insert_read_boundaries_rc, true, [0, 26, 27, 48, 49, 70, 71]);
-c06_insert!(c06_s2_insert_read_l0, false, [2, 3, 4, 5, 6, 7, 8, 9, 10, 11, 12]);
-c06_insert!(c06_s2_insert_read_l1, false, [13, 14, 15, 16, 17, 18, 19, 20, 21, 22, 23]);
-c06_insert!(c06_s2_insert_read_l2, false, [24, 25, 26, 27, 28, 29, 32, 33, 34, 35, 36]);
-c06_insert!(c06_s2_insert_read_l3, false, [37, 38, 39, 40, 41, 42, 43, 44, 45, 46, 47]);
-c06_insert!(c06_s2_insert_read_l4, false, [48, 49, 50, 51, 54, 55, 56, 57, 58, 59, 60]);
-c06_insert!(c06_s2_insert_read_l5, false, [61, 62, 63, 64, 65, 66, 67, 68, 69, 70, 71]);
-c06_insert!(c06_s2_insert_read_l6, false, [72, 73, 76, 77, 78, 79, 80, 81, 82, 83, 84]);
-c06_insert!(c06_s2_insert_read_l7, false, [85, 86, 87, 88, 89, 90, 91, 92, 93, 94, 95]);
-c06_replace!(c06_s3_replace_boundaries, false, [(0, 31), (31, 0), (30, 53), (53, 30), (52, 75), (75, 1), (10, 20), (60, 40)]);
-c06_replace!(c06_s3_replace_boundaries_rc, true, [(0, 27), (27, 0), (26, 49), (49, 26), (71, 5)]);
-c06_replace!(c06_s3_replace_more, false, [(96, 0), (0, 96), (74, 75), (75, 74), (31, 52), (52, 31), (53, 53), (1, 30)]);
+c06_case!(c06_w_len0, { let c: bool = kani::any(); if c { write_case(0, false, true) } else { write_case(0, false, false) } });
+c06_case!(c06_r_len0, { let c: bool = kani::any(); if c { read_case(0, false, true) } else { read_case(0, false, false) } });
+c06_case!(c06_w_len1, { let c: bool = kani::any(); if c { write_case(1, false, true) } else { write_case(1, false, false) } });
+c06_case!(c06_r_len1, { let c: bool = kani::any(); if c { read_case(1, false, true) } else { read_case(1, false, false) } });
+c06_case!(c06_w_len2, { let c: bool = kani::any(); if c { write_case(2, false, true) } else { write_case(2, false, false) } });
+c06_case!(c06_r_len2, { let c: bool = kani::any(); if c { read_case(2, false, true) } else { read_case(2, false, false) } });
+c06_case!(c06_w_len3, { let c: bool = kani::any(); if c { write_case(3, false, true) } else { write_case(3, false, false) } });
+c06_case!(c06_r_len3, { let c: bool = kani::any(); if c { read_case(3, false, true) } else { read_case(3, false, false) } });
+c06_case!(c06_w_len4, { let c: bool = kani::any(); if c { write_case(4, false, true) } else { write_case(4, false, false) } });
+c06_case!(c06_r_len4, { let c: bool = kani::any(); if c { read_case(4, false, true) } else { read_case(4, false, false) } });
+c06_case!(c06_w_len5, { let c: bool = kani::any(); if c { write_case(5, false, true) } else { write_case(5, false, false) } });
+c06_case!(c06_r_len5, { let c: bool = kani::any(); if c { read_case(5, false, true) } else { read_case(5, false, false) } });
+c06_case!(c06_w_len6, { let c: bool = kani::any(); if c { write_case(6, false, true) } else { write_case(6, false, false) } });
+c06_case!(c06_r_len6, { let c: bool = kani::any(); if c { read_case(6, false, true) } else { read_case(6, false, false) } });
+c06_case!(c06_w_len7, { let c: bool = kani::any(); if c { write_case(7, false, true) } else { write_case(7, false, false) } });
+c06_case!(c06_r_len7, { let c: bool = kani::any(); if c { read_case(7, false, true) } else { read_case(7, false, false) } });
+c06_case!(c06_w_len8, { let c: bool = kani::any(); if c { write_case(8, false, true) } else { write_case(8, false, false) } });
+c06_case!(c06_r_len8, { let c: bool = kani::any(); if c { read_case(8, false, true) } else { read_case(8, false, false) } });
+c06_case!(c06_w_len9, { let c: bool = kani::any(); if c { write_case(9, false, true) } else { write_case(9, false, false) } });
+c06_case!(c06_r_len9, { let c: bool = kani::any(); if c { read_case(9, false, true) } else { read_case(9, false, false) } });
+c06_case!(c06_w_len10, { let c: bool = kani::any(); if c { write_case(10, false, true) } else { write_case(10, false, false) } });
+c06_case!(c06_r_len10, { let c: bool = kani::any(); if c { read_case(10, false, true) } else { read_case(10, false, false) } });
+c06_case!(c06_w_len11, { let c: bool = kani::any(); if c { write_case(11, false, true) } else { write_case(11, false, false) } });
+c06_case!(c06_r_len11, { let c: bool = kani::any(); if c { read_case(11, false, true) } else { read_case(11, false, false) } });
+c06_case!(c06_w_len12, { let c: bool = kani::any(); if c { write_case(12, false, true) } else { write_case(12, false, false) } });
+c06_case!(c06_r_len12, { let c: bool = kani::any(); if c { read_case(12, false, true) } else { read_case(12, false, false) } });
+c06_case!(c06_w_len13, { let c: bool = kani::any(); if c { write_case(13, false, true) } else { write_case(13, false, false) } });
+c06_case!(c06_r_len13, { let c: bool = kani::any(); if c { read_case(13, false, true) } else { read_case(13, false, false) } });
+c06_case!(c06_w_len14, { let c: bool = kani::any(); if c { write_case(14, false, true) } else { write_case(14, false, false) } });
+c06_case!(c06_r_len14, { let c: bool = kani::any(); if c { read_case(14, false, true) } else { read_case(14, false, false) } });
+c06_case!(c06_w_len15, { let c: bool = kani::any(); if c { write_case(15, false, true) } else { write_case(15, false, false) } });
+c06_case!(c06_r_len15, { let c: bool = kani::any(); if c { read_case(15, false, true) } else { read_case(15, false, false) } });
+c06_case!(c06_w_len16, { let c: bool = kani::any(); if c { write_case(16, false, true) } else { write_case(16, false, false) } });
+c06_case!(c06_r_len16, { let c: bool = kani::any(); if c { read_case(16, false, true) } else { read_case(16, false, false) } });
+c06_case!(c06_w_len17, { let c: bool = kani::any(); if c { write_case(17, false, true) } else { write_case(17, false, false) } });
+c06_case!(c06_r_len17, { let c: bool = kani::any(); if c { read_case(17, false, true) } else { read_case(17, false, false) } });
+c06_case!(c06_w_len18, { let c: bool = kani::any(); if c { write_case(18, false, true) } else { write_case(18, false, false) } });
+c06_case!(c06_r_len18, { let c: bool = kani::any(); if c { read_case(18, false, true) } else { read_case(18, false, false) } });
+c06_case!(c06_w_len19, { let c: bool = kani::any(); if c { write_case(19, false, true) } else { write_case(19, false, false) } });
+c06_case!(c06_r_len19, { let c: bool = kani::any(); if c { read_case(19, false, true) } else { read_case(19, false, false) } });
+c06_case!(c06_w_len20, { let c: bool = kani::any(); if c { write_case(20, false, true) } else { write_case(20, false, false) } });
+c06_case!(c06_r_len20, { let c: bool = kani::any(); if c { read_case(20, false, true) } else { read_case(20, false, false) } });
+c06_case!(c06_w_len21, { let c: bool = kani::any(); if c { write_case(21, false, true) } else { write_case(21, false, false) } });
+c06_case!(c06_r_len21, { let c: bool = kani::any(); if c { read_case(21, false, true) } else { read_case(21, false, false) } });
+c06_case!(c06_w_len22, { let c: bool = kani::any(); if c { write_case(22, false, true) } else { write_case(22, false, false) } });
+c06_case!(c06_r_len22, { let c: bool = kani::any(); if c { read_case(22, false, true) } else { read_case(22, false, false) } });
+c06_case!(c06_w_len23, { let c: bool = kani::any(); if c { write_case(23, false, true) } else { write_case(23, false, false) } });
+c06_case!(c06_r_len23, { let c: bool = kani::any(); if c { read_case(23, false, true) } else { read_case(23, false, false) } });
+c06_case!(c06_w_len24, { let c: bool = kani::any(); if c { write_case(24, false, true) } else { write_case(24, false, false) } });
+c06_case!(c06_r_len24, { let c: bool = kani::any(); if c { read_case(24, false, true) } else { read_case(24, false, false) } });
+c06_case!(c06_w_len25, { let c: bool = kani::any(); if c { write_case(25, false, true) } else { write_case(25, false, false) } });
+c06_case!(c06_r_len25, { let c: bool = kani::any(); if c { read_case(25, false, true) } else { read_case(25, false, false) } });
+c06_case!(c06_w_len26, { let c: bool = kani::any(); if c { write_case(26, false, true) } else { write_case(26, false, false) } });
+c06_case!(c06_r_len26, { let c: bool = kani::any(); if c { read_case(26, false, true) } else { read_case(26, false, false) } });
+c06_case!(c06_w_len27, { let c: bool = kani::any(); if c { write_case(27, false, true) } else { write_case(27, false, false) } });
+c06_case!(c06_r_len27, { let c: bool = kani::any(); if c { read_case(27, false, true) } else { read_case(27, false, false) } });
+c06_case!(c06_w_len28, { let c: bool = kani::any(); if c { write_case(28, false, true) } else { write_case(28, false, false) } });
+c06_case!(c06_r_len28, { let c: bool = kani::any(); if c { read_case(28, false, true) } else { read_case(28, false, false) } });
+c06_case!(c06_w_len29, { let c: bool = kani::any(); if c { write_case(29, false, true) } else { write_case(29, false, false) } });
+c06_case!(c06_r_len29, { let c: bool = kani::any(); if c { read_case(29, false, true) } else { read_case(29, false, false) } });
+c06_case!(c06_w_len30, { let c: bool = kani::any(); if c { write_case(30, false, true) } else { write_case(30, false, false) } });
+c06_case!(c06_r_len30, { let c: bool = kani::any(); if c { read_case(30, false, true) } else { read_case(30, false, false) } });
+c06_case!(c06_w_len31, { let c: bool = kani::any(); if c { write_case(31, false, true) } else { write_case(31, false, false) } });
+c06_case!(c06_r_len31, { let c: bool = kani::any(); if c { read_case(31, false, true) } else { read_case(31, false, false) } });
+c06_case!(c06_w_len32, { let c: bool = kani::any(); if c { write_case(32, false, true) } else { write_case(32, false, false) } });
+c06_case!(c06_r_len32, { let c: bool = kani::any(); if c { read_case(32, false, true) } else { read_case(32, false, false) } });
+c06_case!(c06_w_len33, { let c: bool = kani::any(); if c { write_case(33, false, true) } else { write_case(33, false, false) } });
+c06_case!(c06_r_len33, { let c: bool = kani::any(); if c { read_case(33, false, true) } else { read_case(33, false, false) } });
+c06_case!(c06_w_len34, { let c: bool = kani::any(); if c { write_case(34, false, true) } else { write_case(34, false, false) } });
+c06_case!(c06_r_len34, { let c: bool = kani::any(); if c { read_case(34, false, true) } else { read_case(34, false, false) } });
+c06_case!(c06_w_len35, { let c: bool = kani::any(); if c { write_case(35, false, true) } else { write_case(35, false, false) } });
+c06_case!(c06_r_len35, { let c: bool = kani::any(); if c { read_case(35, false, true) } else { read_case(35, false, false) } });
+c06_case!(c06_w_len36, { let c: bool = kani::any(); if c { write_case(36, false, true) } else { write_case(36, false, false) } });
+c06_case!(c06_r_len36, { let c: bool = kani::any(); if c { read_case(36, false, true) } else { read_case(36, false, false) } });
+c06_case!(c06_w_len37, { let c: bool = kani::any(); if c { write_case(37, false, true) } else { write_case(37, false, false) } });
+c06_case!(c06_r_len37, { let c: bool = kani::any(); if c { read_case(37, false, true) } else { read_case(37, false, false) } });
+c06_case!(c06_w_len38, { let c: bool = kani::any(); if c { write_case(38, false, true) } else { write_case(38, false, false) } });
+c06_case!(c06_r_len38, { let c: bool = kani::any(); if c { read_case(38, false, true) } else { read_case(38, false, false) } });
+c06_case!(c06_w_len39, { let c: bool = kani::any(); if c { write_case(39, false, true) } else { write_case(39, false, false) } });
+c06_case!(c06_r_len39, { let c: bool = kani::any(); if c { read_case(39, false, true) } else { read_case(39, false, false) } });
+c06_case!(c06_w_len40, { let c: bool = kani::any(); if c { write_case(40, false, true) } else { write_case(40, false, false) } });
+c06_case!(c06_r_len40, { let c: bool = kani::any(); if c { read_case(40, false, true) } else { read_case(40, false, false) } });
+c06_case!(c06_w_len41, { let c: bool = kani::any(); if c { write_case(41, false, true) } else { write_case(41, false, false) } });
+c06_case!(c06_r_len41, { let c: bool = kani::any(); if c { read_case(41, false, true) } else { read_case(41, false, false) } });
+c06_case!(c06_w_len42, { let c: bool = kani::any(); if c { write_case(42, false, true) } else { write_case(42, false, false) } });
+c06_case!(c06_r_len42, { let c: bool = kani::any(); if c { read_case(42, false, true) } else { read_case(42, false, false) } });
+c06_case!(c06_w_len43, { let c: bool = kani::any(); if c { write_case(43, false, true) } else { write_case(43, false, false) } });
+c06_case!(c06_r_len43, { let c: bool = kani::any(); if c { read_case(43, false, true) } else { read_case(43, false, false) } });
+c06_case!(c06_w_len44, { let c: bool = kani::any(); if c { write_case(44, false, true) } else { write_case(44, false, false) } });
+c06_case!(c06_r_len44, { let c: bool = kani::any(); if c { read_case(44, false, true) } else { read_case(44, false, false) } });
+c06_case!(c06_w_len45, { let c: bool = kani::any(); if c { write_case(45, false, true) } else { write_case(45, false, false) } });
+c06_case!(c06_r_len45, { let c: bool = kani::any(); if c { read_case(45, false, true) } else { read_case(45, false, false) } });
+c06_case!(c06_w_len46, { let c: bool = kani::any(); if c { write_case(46, false, true) } else { write_case(46, false, false) } });
+c06_case!(c06_r_len46, { let c: bool = kani::any(); if c { read_case(46, false, true) } else { read_case(46, false, false) } });
+c06_case!(c06_w_len47, { let c: bool = kani::any(); if c { write_case(47, false, true) } else { write_case(47, false, false) } });
+c06_case!(c06_r_len47, { let c: bool = kani::any(); if c { read_case(47, false, true) } else { read_case(47, false, false) } });
+c06_case!(c06_w_len48, { let c: bool = kani::any(); if c { write_case(48, false, true) } else { write_case(48, false, false) } });
+c06_case!(c06_r_len48, { let c: bool = kani::any(); if c { read_case(48, false, true) } else { read_case(48, false, false) } });
+c06_case!(c06_w_len49, { let c: bool = kani::any(); if c { write_case(49, false, true) } else { write_case(49, false, false) } });
+c06_case!(c06_r_len49, { let c: bool = kani::any(); if c { read_case(49, false, true) } else { read_case(49, false, false) } });
+c06_case!(c06_w_len50, { let c: bool = kani::any(); if c { write_case(50, false, true) } else { write_case(50, false, false) } });
+c06_case!(c06_r_len50, { let c: bool = kani::any(); if c { read_case(50, false, true) } else { read_case(50, false, false) } });
+c06_case!(c06_w_len51, { let c: bool = kani::any(); if c { write_case(51, false, true) } else { write_case(51, false, false) } });
+c06_case!(c06_r_len51, { let c: bool = kani::any(); if c { read_case(51, false, true) } else { read_case(51, false, false) } });
+c06_case!(c06_w_len52, { let c: bool = kani::any(); if c { write_case(52, false, true) } else { write_case(52, false, false) } });
+c06_case!(c06_r_len52, { let c: bool = kani::any(); if c { read_case(52, false, true) } else { read_case(52, false, false) } });
+c06_case!(c06_w_len53, { let c: bool = kani::any(); if c { write_case(53, false, true) } else { write_case(53, false, false) } });
+c06_case!(c06_r_len53, { let c: bool = kani::any(); if c { read_case(53, false, true) } else { read_case(53, false, false) } });
+c06_case!(c06_w_len54, { let c: bool = kani::any(); if c { write_case(54, false, true) } else { write_case(54, false, false) } });
+c06_case!(c06_r_len54, { let c: bool = kani::any(); if c { read_case(54, false, true) } else { read_case(54, false, false) } });
+c06_case!(c06_w_len55, { let c: bool = kani::any(); if c { write_case(55, false, true) } else { write_case(55, false, false) } });
+c06_case!(c06_r_len55, { let c: bool = kani::any(); if c { read_case(55, false, true) } else { read_case(55, false, false) } });
+c06_case!(c06_w_len56, { let c: bool = kani::any(); if c { write_case(56, false, true) } else { write_case(56, false, false) } });
+c06_case!(c06_r_len56, { let c: bool = kani::any(); if c { read_case(56, false, true) } else { read_case(56, false, false) } });
+c06_case!(c06_w_len57, { let c: bool = kani::any(); if c { write_case(57, false, true) } else { write_case(57, false, false) } });
+c06_case!(c06_r_len57, { let c: bool = kani::any(); if c { read_case(57, false, true) } else { read_case(57, false, false) } });
+c06_case!(c06_w_len58, { let c: bool = kani::any(); if c { write_case(58, false, true) } else { write_case(58, false, false) } });
+c06_case!(c06_r_len58, { let c: bool = kani::any(); if c { read_case(58, false, true) } else { read_case(58, false, false) } });
+c06_case!(c06_w_len59, { let c: bool = kani::any(); if c { write_case(59, false, true) } else { write_case(59, false, false) } });
+c06_case!(c06_r_len59, { let c: bool = kani::any(); if c { read_case(59, false, true) } else { read_case(59, false, false) } });
+c06_case!(c06_w_len60, { let c: bool = kani::any(); if c { write_case(60, false, true) } else { write_case(60, false, false) } });
+c06_case!(c06_r_len60, { let c: bool = kani::any(); if c { read_case(60, false, true) } else { read_case(60, false, false) } });
+c06_case!(c06_w_len61, { let c: bool = kani::any(); if c { write_case(61, false, true) } else { write_case(61, false, false) } });
+c06_case!(c06_r_len61, { let c: bool = kani::any(); if c { read_case(61, false, true) } else { read_case(61, false, false) } });
+c06_case!(c06_w_len62, { let c: bool = kani::any(); if c { write_case(62, false, true) } else { write_case(62, false, false) } });
+c06_case!(c06_r_len62, { let c: bool = kani::any(); if c { read_case(62, false, true) } else { read_case(62, false, false) } });
+c06_case!(c06_w_len63, { let c: bool = kani::any(); if c { write_case(63, false, true) } else { write_case(63, false, false) } });
+c06_case!(c06_r_len63, { let c: bool = kani::any(); if c { read_case(63, false, true) } else { read_case(63, false, false) } });
+c06_case!(c06_w_len64, { let c: bool = kani::any(); if c { write_case(64, false, true) } else { write_case(64, false, false) } });
+c06_case!(c06_r_len64, { let c: bool = kani::any(); if c { read_case(64, false, true) } else { read_case(64, false, false) } });
+c06_case!(c06_w_len65, { let c: bool = kani::any(); if c { write_case(65, false, true) } else { write_case(65, false, false) } });
+c06_case!(c06_r_len65, { let c: bool = kani::any(); if c { read_case(65, false, true) } else { read_case(65, false, false) } });
+c06_case!(c06_w_len66, { let c: bool = kani::any(); if c { write_case(66, false, true) } else { write_case(66, false, false) } });
+c06_case!(c06_r_len66, { let c: bool = kani::any(); if c { read_case(66, false, true) } else { read_case(66, false, false) } });
+c06_case!(c06_w_len67, { let c: bool = kani::any(); if c { write_case(67, false, true) } else { write_case(67, false, false) } });
+c06_case!(c06_r_len67, { let c: bool = kani::any(); if c { read_case(67, false, true) } else { read_case(67, false, false) } });
+c06_case!(c06_w_len68, { let c: bool = kani::any(); if c { write_case(68, false, true) } else { write_case(68, false, false) } });
+c06_case!(c06_r_len68, { let c: bool = kani::any(); if c { read_case(68, false, true) } else { read_case(68, false, false) } });
+c06_case!(c06_w_len69, { let c: bool = kani::any(); if c { write_case(69, false, true) } else { write_case(69, false, false) } });
+c06_case!(c06_r_len69, { let c: bool = kani::any(); if c { read_case(69, false, true) } else { read_case(69, false, false) } });
+c06_case!(c06_w_len70, { let c: bool = kani::any(); if c { write_case(70, false, true) } else { write_case(70, false, false) } });
+c06_case!(c06_r_len70, { let c: bool = kani::any(); if c { read_case(70, false, true) } else { read_case(70, false, false) } });
+c06_case!(c06_w_len71, { let c: bool = kani::any(); if c { write_case(71, false, true) } else { write_case(71, false, false) } });
+c06_case!(c06_r_len71, { let c: bool = kani::any(); if c { read_case(71, false, true) } else { read_case(71, false, false) } });
+c06_case!(c06_w_len72, { let c: bool = kani::any(); if c { write_case(72, false, true) } else { write_case(72, false, false) } });
+c06_case!(c06_r_len72, { let c: bool = kani::any(); if c { read_case(72, false, true) } else { read_case(72, false, false) } });
+c06_case!(c06_w_len73, { let c: bool = kani::any(); if c { write_case(73, false, true) } else { write_case(73, false, false) } });
+c06_case!(c06_r_len73, { let c: bool = kani::any(); if c { read_case(73, false, true) } else { read_case(73, false, false) } });
+c06_case!(c06_w_len74, { let c: bool = kani::any(); if c { write_case(74, false, true) } else { write_case(74, false, false) } });
+c06_case!(c06_r_len74, { let c: bool = kani::any(); if c { read_case(74, false, true) } else { read_case(74, false, false) } });
+c06_case!(c06_w_len75, { let c: bool = kani::any(); if c { write_case(75, false, true) } else { write_case(75, false, false) } });
+c06_case!(c06_r_len75, { let c: bool = kani::any(); if c { read_case(75, false, true) } else { read_case(75, false, false) } });
+c06_case!(c06_w_len76, { let c: bool = kani::any(); if c { write_case(76, false, true) } else { write_case(76, false, false) } });
+c06_case!(c06_r_len76, { let c: bool = kani::any(); if c { read_case(76, false, true) } else { read_case(76, false, false) } });
+c06_case!(c06_w_len77, { let c: bool = kani::any(); if c { write_case(77, false, true) } else { write_case(77, false, false) } });
+c06_case!(c06_r_len77, { let c: bool = kani::any(); if c { read_case(77, false, true) } else { read_case(77, false, false) } });
+c06_case!(c06_w_len78, { let c: bool = kani::any(); if c { write_case(78, false, true) } else { write_case(78, false, false) } });
+c06_case!(c06_r_len78, { let c: bool = kani::any(); if c { read_case(78, false, true) } else { read_case(78, false, false) } });
+c06_case!(c06_w_len79, { let c: bool = kani::any(); if c { write_case(79, false, true) } else { write_case(79, false, false) } });
+c06_case!(c06_r_len79, { let c: bool = kani::any(); if c { read_case(79, false, true) } else { read_case(79, false, false) } });
+c06_case!(c06_w_len80, { let c: bool = kani::any(); if c { write_case(80, false, true) } else { write_case(80, false, false) } });
+c06_case!(c06_r_len80, { let c: bool = kani::any(); if c { read_case(80, false, true) } else { read_case(80, false, false) } });
+c06_case!(c06_w_len81, { let c: bool = kani::any(); if c { write_case(81, false, true) } else { write_case(81, false, false) } });
+c06_case!(c06_r_len81, { let c: bool = kani::any(); if c { read_case(81, false, true) } else { read_case(81, false, false) } });
+c06_case!(c06_w_len82, { let c: bool = kani::any(); if c { write_case(82, false, true) } else { write_case(82, false, false) } });
+c06_case!(c06_r_len82, { let c: bool = kani::any(); if c { read_case(82, false, true) } else { read_case(82, false, false) } });
+c06_case!(c06_w_len83, { let c: bool = kani::any(); if c { write_case(83, false, true) } else { write_case(83, false, false) } });
+c06_case!(c06_r_len83, { let c: bool = kani::any(); if c { read_case(83, false, true) } else { read_case(83, false, false) } });
+c06_case!(c06_w_len84, { let c: bool = kani::any(); if c { write_case(84, false, true) } else { write_case(84, false, false) } });
+c06_case!(c06_r_len84, { let c: bool = kani::any(); if c { read_case(84, false, true) } else { read_case(84, false, false) } });
+c06_case!(c06_w_len85, { let c: bool = kani::any(); if c { write_case(85, false, true) } else { write_case(85, false, false) } });
+c06_case!(c06_r_len85, { let c: bool = kani::any(); if c { read_case(85, false, true) } else { read_case(85, false, false) } });
+c06_case!(c06_w_len86, { let c: bool = kani::any(); if c { write_case(86, false, true) } else { write_case(86, false, false) } });
+c06_case!(c06_r_len86, { let c: bool = kani::any(); if c { read_case(86, false, true) } else { read_case(86, false, false) } });
+c06_case!(c06_w_len87, { let c: bool = kani::any(); if c { write_case(87, false, true) } else { write_case(87, false, false) } });
+c06_case!(c06_r_len87, { let c: bool = kani::any(); if c { read_case(87, false, true) } else { read_case(87, false, false) } });
+c06_case!(c06_w_len88, { let c: bool = kani::any(); if c { write_case(88, false, true) } else { write_case(88, false, false) } });
+c06_case!(c06_r_len88, { let c: bool = kani::any(); if c { read_case(88, false, true) } else { read_case(88, false, false) } });
+c06_case!(c06_w_len89, { let c: bool = kani::any(); if c { write_case(89, false, true) } else { write_case(89, false, false) } });
+c06_case!(c06_r_len89, { let c: bool = kani::any(); if c { read_case(89, false, true) } else { read_case(89, false, false) } });
+c06_case!(c06_w_len90, { let c: bool = kani::any(); if c { write_case(90, false, true) } else { write_case(90, false, false) } });
+c06_case!(c06_r_len90, { let c: bool = kani::any(); if c { read_case(90, false, true) } else { read_case(90, false, false) } });
+c06_case!(c06_w_len91, { let c: bool = kani::any(); if c { write_case(91, false, true) } else { write_case(91, false, false) } });
+c06_case!(c06_r_len91, { let c: bool = kani::any(); if c { read_case(91, false, true) } else { read_case(91, false, false) } });
+c06_case!(c06_w_len92, { let c: bool = kani::any(); if c { write_case(92, false, true) } else { write_case(92, false, false) } });
+c06_case!(c06_r_len92, { let c: bool = kani::any(); if c { read_case(92, false, true) } else { read_case(92, false, false) } });
+c06_case!(c06_w_len93, { let c: bool = kani::any(); if c { write_case(93, false, true) } else { write_case(93, false, false) } });
+c06_case!(c06_r_len93, { let c: bool = kani::any(); if c { read_case(93, false, true) } else { read_case(93, false, false) } });
+c06_case!(c06_w_len94, { let c: bool = kani::any(); if c { write_case(94, false, true) } else { write_case(94, false, false) } });
+c06_case!(c06_r_len94, { let c: bool = kani::any(); if c { read_case(94, false, true) } else { read_case(94, false, false) } });
+c06_case!(c06_w_len95, { let c: bool = kani::any(); if c { write_case(95, false, true) } else { write_case(95, false, false) } });
+c06_case!(c06_r_len95, { let c: bool = kani::any(); if c { read_case(95, false, true) } else { read_case(95, false, false) } });
+c06_case!(c06_w_len96, { let c: bool = kani::any(); if c { write_case(96, false, true) } else { write_case(96, false, false) } });
+c06_case!(c06_r_len96, { let c: bool = kani::any(); if c { read_case(96, false, true) } else { read_case(96, false, false) } });
+c06_case!(c06_w_rc_len0, { let c: bool = kani::any(); if c { write_case(0, true, true) } else { write_case(0, true, false) } });
+c06_case!(c06_r_rc_len0, { let c: bool = kani::any(); if c { read_case(0, true, true) } else { read_case(0, true, false) } });
+c06_case!(c06_w_rc_len1, { let c: bool = kani::any(); if c { write_case(1, true, true) } else { write_case(1, true, false) } });
+c06_case!(c06_r_rc_len1, { let c: bool = kani::any(); if c { read_case(1, true, true) } else { read_case(1, true, false) } });
+c06_case!(c06_w_rc_len26, { let c: bool = kani::any(); if c { write_case(26, true, true) } else { write_case(26, true, false) } });
+c06_case!(c06_r_rc_len26, { let c: bool = kani::any(); if c { read_case(26, true, true) } else { read_case(26, true, false) } });
+c06_case!(c06_w_rc_len27, { let c: bool = kani::any(); if c { write_case(27, true, true) } else { write_case(27, true, false) } });
+c06_case!(c06_r_rc_len27, { let c: bool = kani::any(); if c { read_case(27, true, true) } else { read_case(27, true, false) } });
+c06_case!(c06_w_rc_len48, { let c: bool = kani::any(); if c { write_case(48, true, true) } else { write_case(48, true, false) } });
+c06_case!(c06_r_rc_len48, { let c: bool = kani::any(); if c { read_case(48, true, true) } else { read_case(48, true, false) } });
+c06_case!(c06_w_rc_len49, { let c: bool = kani::any(); if c { write_case(49, true, true) } else { write_case(49, true, false) } });
+c06_case!(c06_r_rc_len49, { let c: bool = kani::any(); if c { read_case(49, true, true) } else { read_case(49, true, false) } });
+c06_case!(c06_w_rc_len70, { let c: bool = kani::any(); if c { write_case(70, true, true) } else { write_case(70, true, false) } });
+c06_case!(c06_r_rc_len70, { let c: bool = kani::any(); if c { read_case(70, true, true) } else { read_case(70, true, false) } });
+c06_case!(c06_w_rc_len71, { let c: bool = kani::any(); if c { write_case(71, true, true) } else { write_case(71, true, false) } });
+c06_case!(c06_r_rc_len71, { let c: bool = kani::any(); if c { read_case(71, true, true) } else { read_case(71, true, false) } });
+c06_case!(c06_w_rc_len92, { let c: bool = kani::any(); if c { write_case(92, true, true) } else { write_case(92, true, false) } });
+c06_case!(c06_r_rc_len92, { let c: bool = kani::any(); if c { read_case(92, true, true) } else { read_case(92, true, false) } });
+c06_case!(c06_s3_replace_0_to_30, { let c: bool = kani::any(); if c { replace_case(0, 30, false, true) } else { replace_case(0, 30, false, false) } });
+c06_case!(c06_s3_replace_30_to_0, { let c: bool = kani::any(); if c { replace_case(30, 0, false, true) } else { replace_case(30, 0, false, false) } });
+c06_case!(c06_s3_replace_10_to_20, { let c: bool = kani::any(); if c { replace_case(10, 20, false, true) } else { replace_case(10, 20, false, false) } });
+c06_case!(c06_s3_replace_1_to_30, { let c: bool = kani::any(); if c { replace_case(1, 30, false, true) } else { replace_case(1, 30, false, false) } });
+c06_case!(c06_s3_replace_31_to_53, { let c: bool = kani::any(); if c { replace_case(31, 53, false, true) } else { replace_case(31, 53, false, false) } });
+c06_case!(c06_s3_replace_53_to_31, { let c: bool = kani::any(); if c { replace_case(53, 31, false, true) } else { replace_case(53, 31, false, false) } });
+c06_case!(c06_s3_replace_52_to_75, { let c: bool = kani::any(); if c { replace_case(52, 75, false, true) } else { replace_case(52, 75, false, false) } });
+c06_case!(c06_s3_replace_75_to_31, { let c: bool = kani::any(); if c { replace_case(75, 31, false, true) } else { replace_case(75, 31, false, false) } });
+c06_case!(c06_s3_replace_74_to_75, { let c: bool = kani::any(); if c { replace_case(74, 75, false, true) } else { replace_case(74, 75, false, false) } });
+c06_case!(c06_s3_replace_75_to_74, { let c: bool = kani::any(); if c { replace_case(75, 74, false, true) } else { replace_case(75, 74, false, false) } });
+c06_case!(c06_s3_replace_96_to_31, { let c: bool = kani::any(); if c { replace_case(96, 31, false, true) } else { replace_case(96, 31, false, false) } });
+c06_case!(c06_s3_replace_31_to_96, { let c: bool = kani::any(); if c { replace_case(31, 96, false, true) } else { replace_case(31, 96, false, false) } });
+c06_case!(c06_s3_replace_53_to_53, { let c: bool = kani::any(); if c { replace_case(53, 53, false, true) } else { replace_case(53, 53, false, false) } });
+c06_case!(c06_s3_replace_rc_0_to_26, { let c: bool = kani::any(); if c { replace_case(0, 26, true, true) } else { replace_case(0, 26, true, false) } });
+c06_case!(c06_s3_replace_rc_26_to_0, { let c: bool = kani::any(); if c { replace_case(26, 0, true, true) } else { replace_case(26, 0, true, false) } });
+c06_case!(c06_s3_replace_rc_27_to_49, { let c: bool = kani::any(); if c { replace_case(27, 49, true, true) } else { replace_case(27, 49, true, false) } });
+c06_case!(c06_s3_replace_rc_49_to_27, { let c: bool = kani::any(); if c { replace_case(49, 27, true, true) } else { replace_case(49, 27, true, false) } });
+c06_case!(c06_s3_replace_rc_71_to_27, { let c: bool = kani::any(); if c { replace_case(71, 27, true, true) } else { replace_case(71, 27, true, false) } });
 
 // =====================================================================================
 // C06.S1a: tier table facts — value_size per real tier; a size field can never alias a marker
@@ -518,3 +821,5 @@ fn c14_t0_init_free_stack_matches_disk_list() {
 	std::mem::forget(t);
 }
 }
+
+
